@@ -338,16 +338,28 @@ class RefArray:
         self.name, self.kind, self.size, self.need, self.exact = name, kind, size, need, exact
 
 
-def match_arrays(inst: Instance, refs: List[RefArray]) -> List[Dict[int, T]]:
+def match_arrays(inst: Instance, refs: List[RefArray], fixed: Optional[Dict[str, List[int]]] = None) -> List[Dict[int, T]]:
     """all assignments of the instance's auxiliary arrays to the reference arrays that are compatible in
-    kind, size and (for integers) domain: domain must contain at least `need` consecutive values from lo"""
+    kind, size and (for integers) domain: domain must contain at least `need` consecutive values from lo.
+    `fixed` binds reference arrays to known variable ids (e.g. the arrays a function returns)."""
     aux = inst.aux_arrays()
+    base: Dict[int, T] = {}
+    if fixed:
+        for name, ids in fixed.items():
+            hit = [a for a in aux if a["ids"] == ids]
+            ref = [r for r in refs if r.name == name]
+            if len(hit) != 1 or len(ref) != 1 or hit[0]["kind"] != ref[0].kind or len(ids) != ref[0].size:
+                return []
+            aux = [a for a in aux if a is not hit[0]]
+            refs = [r for r in refs if r is not ref[0]]
+            for k, vid in enumerate(ids):
+                base[vid] = (name, k)
     if len(aux) != len(refs):
         return []
     out = []
     for perm in itertools.permutations(range(len(refs))):
         okay = True
-        names: Dict[int, T] = {}
+        names: Dict[int, T] = dict(base)
         for a, ri in zip(aux, perm):
             r = refs[ri]
             if a["kind"] != r.kind or len(a["ids"]) != r.size:
@@ -382,13 +394,13 @@ def user_names(inst: Instance) -> Dict[int, T]:
 LAST_MATCH: Dict[int, T] = {}  # variable naming under which the last successful comparison held
 
 
-def compare(inst: Instance, refs: List[RefArray], ref_constraints: Callable[[], List[T]], offsets: Optional[Dict[str, int]] = None
-            ) -> Tuple[bool, str]:
+def compare(inst: Instance, refs: List[RefArray], ref_constraints: Callable[[], List[T]], offsets: Optional[Dict[str, int]] = None,
+            fixed: Optional[Dict[str, List[int]]] = None) -> Tuple[bool, str]:
     """(equal?, description of the first difference)"""
     fold0 = Canon({}).fold
     want = sorted({c for c in (fold0(x) for x in ref_constraints()) if c != ("c", True)}, key=repr)
     best = None
-    cands = match_arrays(inst, refs)
+    cands = match_arrays(inst, refs, fixed)
     if not cands:
         aux = [(a["kind"], len(a["ids"]), a.get("lo"), a.get("hi")) for a in inst.aux_arrays()]
         return False, (f"auxiliary arrays {aux} do not fit the reference schema "
